@@ -64,7 +64,7 @@ pub fn models(id: &str, tier: &str) -> Vec<HistoryModel> {
     }
     if quick {
         v.push(base(vec![WorldCfg::default()], 3, 1, vec![], false));
-        v.push(base(vec![alt_cfg()], 2, 1, vec!["S0", "S3", "S4", "S8"], false));
+        v.push(base(vec![alt_cfg()], 2, 1, vec!["S0", "S3", "S4", "S8", "S10"], false));
     } else {
         v.push(base(vec![WorldCfg::default()], 4, 2, vec![], true));
         // every commit-option combination
@@ -78,7 +78,7 @@ pub fn models(id: &str, tier: &str) -> Vec<HistoryModel> {
                 ..Default::default()
             });
         }
-        v.push(base(cfgs, 3, 1, vec!["S0", "S3", "S4", "S6", "S8"], false));
+        v.push(base(cfgs, 3, 1, vec!["S0", "S3", "S4", "S6", "S8", "S10"], false));
         // suites x providers, and provider mixes
         let mut cfgs = vec![];
         for (suite, provs) in [
@@ -122,7 +122,7 @@ pub fn meta(id: &str, tier: &str) -> Meta {
                     "configs": m.cfgs.iter().map(|c| c.label()).collect::<Vec<_>>(),
                     "depth_from_initial_group": m.depth_initial,
                     "depth_from_gallery_seeds": m.depth_gallery,
-                    "seeds": if m.seeds.is_empty() { vec!["S0..S9"] } else { m.seeds.clone() },
+                    "seeds": if m.seeds.is_empty() { vec!["S0..S10"] } else { m.seeds.clone() },
                     "all_members_propose": m.all_proposers,
                 }))
                 .collect::<Vec<_>>()),
@@ -134,7 +134,7 @@ pub fn meta(id: &str, tier: &str) -> Meta {
         "C02" => ("same traversal; every HPKE seal recorded by the committer's provider while a commit is built must go to a key in the new tree's copath resolutions (reference parser) minus leaves added now, or to an added key package's init key; every message of every later round plus fresh application/proposal/commit traffic is offered to every retained ex-member state (processed its removal / never saw it) and every Welcome to every outsider: must be rejected; ex-members' authenticator/export compared with every later ledger entry", vec!["commit-with-path-secrets", "interior-blank-leaf"]),
         "C07" => ("same traversal; every Welcome / external-commit joiner is ledger-compared with the members, its key package must still be stored before and be gone after its first write_to_storage (fork), and its first commit must be accepted by all (fork); plus the mismatch matrix and the re-join scenarios", vec!["external-commit", "add-into-interior-blank"]),
         "C08" => ("same traversal; after every commit every member's own exported tree is parsed by the independent reference parser: tree hash from scratch == GroupContext.tree_hash, parent-hash chains valid (reference implementation of RFC 9420 7.9.2), unmerged lists sorted/consistent, no trailing blank, unique keys, new leaves leftmost; one copy per round is validated by a fresh ExternalClient::observe_group", vec!["tree-shrank", "tree-grew", "unmerged-leaf-under-parent", "interior-blank-leaf", "add-into-interior-blank"]),
-        "C04" => ("history traversal (one level less deep than C01); in every reached state and for every member: one mutant per framing region (first/last/middle byte bit flips, truncations at field boundaries) of every genuine message deliverable to it (application, proposal, commit, commit with add; public and private wire formats), previous-epoch messages, commits referencing a proposal / PSK / identity the member cannot resolve, and six operations the member fails to build; each on a fork: Err => complete state (hook H1, effective view) unchanged, genuine message afterwards => state equal to a twin's, next send accepted by a peer", vec!["commit-with-unknown-proposal-ref", "psk-commit-m-lacks-psk", "commit-identity-rejected-by-m"]),
+        "C04" => ("history traversal (one level less deep than C01); in every reached state and for every member: one mutant per framing region (first/last/middle byte bit flips, truncations at field boundaries) of every genuine message deliverable to it (application, proposal, commit, commit with add; public and private wire formats), previous-epoch messages, commits referencing a proposal / PSK / identity the member cannot resolve, and six operations the member fails to build; each on a fork: Err => complete state (hook H1, effective view) unchanged, genuine message afterwards => state equal to a twin's, next send accepted by a peer", vec!["commit-with-unknown-proposal-ref", "psk-commit-m-lacks-psk", "commit-identity-rejected-by-m", "late-failure-at-confirmation-tag"]),
         "C09" => ("same traversal; after every commit, for every member each stored private key must open an HPKE seal to the public key of the corresponding node of the exported tree (reference parser), no key for a blank node, and after a commit with path all non-blank nodes on the committer's direct path carry keys absent from the previous tree", vec!["commit-without-path", "interior-blank-leaf", "unmerged-leaf-under-parent"]),
         _ => ("", vec![]),
     };
